@@ -2541,6 +2541,8 @@ package decimal128
 //@ call Decimal.digits#1: V = V
 //@ ensures special(d) ==> tag(err) == typetag("*encoding/json.UnsupportedValueError")
 //@ ensures !special(d) ==> tag(err) == 0
+//@ callarg digits.fmtE#1: arg_prec == ite(digs.ndig != 0, digs.ndig - 1, 0) && arg_width == 0 && !arg_forceDP && !arg_printSign && !arg_padSign && !arg_padExp && !arg_padRight && !arg_padZero && arg_e == 101
+//@ callarg digits.fmtF#1: arg_prec == ite(digs.exp < 0, 0 - digs.exp, 0) && arg_width == 0 && !arg_forceDP && !arg_printSign && !arg_padSign && !arg_padRight && !arg_padZero
 //@ props C13 C20
 
 // String / MarshalText (C06): the layout is chosen by the value: positional exactly when
@@ -2558,6 +2560,8 @@ package decimal128
 //@ assert before "buf = digs.fmtF(buf, prec, 0, false, false, false, false, false)": coef(d) == 0 || rs(V, 6182) < 1
 //@ ensures isnan(d) ==> len(s) == 3 && s[0] == 78 && s[1] == 97 && s[2] == 78
 //@ ensures isinf(d) ==> len(s) == 4 && s[0] == ite(sign(d), 45, 43) && s[1] == 73 && s[2] == 110 && s[3] == 102
+//@ callarg digits.fmtE#1: arg_prec == ite(digs.ndig != 0, digs.ndig - 1, 0) && arg_width == 0 && !arg_forceDP && !arg_printSign && !arg_padSign && arg_padExp && !arg_padRight && !arg_padZero && arg_e == 101
+//@ callarg digits.fmtF#1: arg_prec == ite(digs.exp < 0, 0 - digs.exp, 0) && arg_width == 0 && !arg_forceDP && !arg_printSign && !arg_padSign && !arg_padRight && !arg_padZero
 //@ props C06 C20
 
 //@ func Decimal.MarshalText
@@ -2573,6 +2577,8 @@ package decimal128
 //@ assert before "return digs.fmtF(nil, prec, 0, false, false, false, false, false), nil": coef(d) == 0 || rs(V, 6182) < 1
 //@ ensures isnan(d) ==> len(out) == 3 && out[0] == 78 && out[1] == 97 && out[2] == 78
 //@ ensures isinf(d) ==> len(out) == 4 && out[0] == ite(sign(d), 45, 43) && out[1] == 73 && out[2] == 110 && out[3] == 102
+//@ callarg digits.fmtE#1: arg_prec == ite(digs.ndig != 0, digs.ndig - 1, 0) && arg_width == 0 && !arg_forceDP && !arg_printSign && !arg_padSign && arg_padExp && !arg_padRight && !arg_padZero && arg_e == 101
+//@ callarg digits.fmtF#1: arg_prec == ite(digs.exp < 0, 0 - digs.exp, 0) && arg_width == 0 && !arg_forceDP && !arg_printSign && !arg_padSign && !arg_padRight && !arg_padZero
 //@ props C06 C20
 
 //@ func formatArgs.precision
@@ -2604,7 +2610,7 @@ package decimal128
 //@ returns (out)
 //@ logical V real
 //@ requires !special(d) ==> V >= 0 && rs(V, bexp(d)) == coef(d)
-//@ requires !special(d) && args.prec <= 100000000 - 100 && args.wid <= 100000000 && args.wid >= 0 - 100000000
+//@ requires !special(d) && args.prec <= 100000000 - 100 && args.wid <= 100000000 && args.wid >= 0
 //@ call Decimal.digits#1: V = V
 //@ define X = (digs.exp + ite(digs.ndig != 0, digs.ndig - 1, 0))
 //@ define P = ite(args.prec < 0, 6, ite(args.prec == 0, 1, args.prec))
@@ -2614,6 +2620,20 @@ package decimal128
 //@ assert before "prec = 0"#2: digs.ndig >= 1 ==> real(p10(digs.ndig - 1)) <= rs(V, digs.exp + 6176) && rs(V, digs.exp + 6176) < real(p10(digs.ndig))
 //@ assert before "return digs.fmtF(buf, prec, 0, false, false, false, false, false)": coef(d) == 0 || rs(V, 6172) >= 1
 //@ assert before "return digs.fmtF(buf, prec, 0, false, false, false, false, false)": coef(d) == 0 || rs(V, 6182) < 1
+//@ define PE = ite(args.prec < 0, 6, args.prec)
+//@ define PG = ite(args.prec == 0, 1, args.prec)
+//@ callarg digits.round#1: arg_prec == PE + 1
+//@ callarg digits.fmtE#1: arg_prec == PE && arg_e == args.verb && arg_width == args.wid && arg_forceDP == args.forceDP && arg_printSign == args.printSign && arg_padSign == args.padSign && arg_padExp && arg_padRight == args.padRight && arg_padZero == args.padZero
+//@ callarg digits.round#2: arg_prec == digs.ndig + digs.exp + PE
+//@ callarg digits.fmtF#1: arg_prec == PE && arg_width == args.wid && arg_forceDP == args.forceDP && arg_printSign == args.printSign && arg_padSign == args.padSign && arg_padRight == args.padRight && arg_padZero == args.padZero
+//@ callarg digits.round#3: arg_prec == ite(args.prec < 0, ite(digs.ndig < 6, 6, digs.ndig), PG)
+//@ callarg digits.round#4: arg_prec == PG
+//@ ghost SIG int = 0
+//@ ghost before "eprec := 0": SIG = ite(args.forceDP, ite(args.prec < 0, ite(digs.ndig < 6, 6, digs.ndig), PG), digs.ndig)
+//@ callarg digits.fmtE#2: arg_prec == SIG - 1 && arg_e == ite(args.verb == 71, 69, 101) && arg_width == args.wid && arg_forceDP == args.forceDP && arg_printSign == args.printSign && arg_padSign == args.padSign && arg_padExp && arg_padRight == args.padRight && arg_padZero == args.padZero
+//@ callarg digits.fmtF#2: arg_prec == ite(args.forceDP, SIG - ite(digs.ndig == 0, 1 + digs.exp, digs.ndig + digs.exp), ite(digs.exp < 0, 0 - digs.exp, 0)) && arg_width == args.wid && arg_forceDP == args.forceDP && arg_printSign == args.printSign && arg_padSign == args.padSign && arg_padRight == args.padRight && arg_padZero == args.padZero
+//@ callarg digits.fmtE#3: arg_prec == ite(digs.ndig != 0, digs.ndig - 1, 0) && arg_width == 0 && !arg_forceDP && !arg_printSign && !arg_padSign && arg_padExp && !arg_padRight && !arg_padZero && arg_e == 101
+//@ callarg digits.fmtF#3: arg_prec == ite(digs.exp < 0, 0 - digs.exp, 0) && arg_width == 0 && !arg_forceDP && !arg_printSign && !arg_padSign && !arg_padRight && !arg_padZero
 //@ props C06 C07 C20
 
 // Append (C06, C07): layout selection of the package-level Append / Format: for 'g'/'G' the same
@@ -2637,6 +2657,13 @@ package decimal128
 //@ ensures isnan(d) ==> len(out) == A0 + 3 && out[A0] == 78 && out[A0 + 1] == 97 && out[A0 + 2] == 78
 //@ ensures isinf(d) ==> len(out) == A0 + 4 && out[A0] == ite(sign(d), 45, 43) && out[A0 + 1] == 73 && out[A0 + 2] == 110 && out[A0 + 3] == 102
 //@ ensures special(d) ==> (forall k in 0..A0 - 1: out[k] == old(buf[k]))
+//@ callarg digits.round#1: arg_prec == old(prec) + 1
+//@ callarg digits.fmtE#1: arg_prec == ite(old(prec) < 0, ite(digs.ndig != 0, digs.ndig - 1, 0), old(prec)) && arg_e == fmt && arg_width == 0 && !arg_forceDP && !arg_printSign && !arg_padSign && arg_padExp && !arg_padRight && !arg_padZero
+//@ callarg digits.round#2: arg_prec == digs.ndig + digs.exp + old(prec)
+//@ callarg digits.fmtF#1: arg_prec == ite(old(prec) < 0, ite(digs.exp < 0, 0 - digs.exp, 0), old(prec)) && arg_width == 0 && !arg_forceDP && !arg_printSign && !arg_padSign && !arg_padRight && !arg_padZero
+//@ callarg digits.round#3: arg_prec == ite(old(prec) == 0, 1, old(prec))
+//@ callarg digits.fmtE#2: arg_prec == digs.ndig - 1 && arg_e == ite(fmt == 71, 69, 101) && arg_width == 0 && !arg_forceDP && !arg_printSign && !arg_padSign && arg_padExp && !arg_padRight && !arg_padZero
+//@ callarg digits.fmtF#2: arg_prec == ite(digs.exp < 0, 0 - digs.exp, 0) && arg_width == 0 && !arg_forceDP && !arg_printSign && !arg_padSign && !arg_padRight && !arg_padZero
 //@ props C06 C07 C20
 
 // digits.fmtE (C06, C07), the exponent field only: after the mantissa the output carries the letter
@@ -2973,6 +3000,79 @@ package decimal128
 // digits.pad (C07): width handling. The result is buf itself when it already has the width;
 // otherwise it has exactly width bytes: with '-' the text followed by the padding byte; without it
 // the padding first, except that with '0' padding a sign byte stays in front of the zeros.
+// digits.fmtF (C06, C07, C20): the bytes of the positional form. With DP = ndig + exp the position of
+// the decimal point: integer part = the first DP digits (zero-extended when the digits run out; a
+// single 0 when DP <= 0 or there are no digits); with a positive precision a point, -DP zeros when
+// DP < 0, the remaining digits, and zeros up to the precision; then pad. Callers round first, so that
+// no digit lies beyond the precision (exp >= -prec).
+//@ func digits.fmtF
+//@ returns (out)
+//@ requires 0 <= d.ndig && d.ndig <= 39 && 0 - 9900 <= d.exp && d.exp <= 9900 && width <= 100000000 && width >= 0 && prec <= 100000000
+//@ define DG = arr(d.dig)
+//@ define N0 = len(old(buf))
+//@ define SL = ite(d.neg || printSign || padSign, 1, 0)
+//@ define MB = (N0 + SL)
+//@ define DP = ite(d.ndig == 0, 0, d.ndig + d.exp)
+//@ define DPP = ite(DP > 0, DP, 0)
+//@ define IL = ite(DP > 0, DP, 1)
+//@ define Z1 = ite(DP < 0, 0 - DP, 0)
+//@ define FD = ite(d.ndig > DPP, d.ndig - DPP, 0)
+//@ define P0 = old(prec)
+//@ define FR = ite(P0 > 0, 1 + Z1 + ite(FD > P0 - Z1, FD, P0 - Z1), ite(forceDP, 1, 0))
+//@ define LEN = (MB + IL + FR)
+//@ define F0 = (MB + IL + 1 + Z1)
+//@ define SIGN = (SL == 1 ==> buf[N0] == ite(d.neg, 45, ite(printSign, 43, 32)))
+//@ define KEEP = (forall k in 0..N0 - 1: buf[k] == old(buf[k]))
+//@ define INTD = (forall k in MB..MB + ite(DP < d.ndig, DP, d.ndig) - 1: buf[k] == DG[k - MB])
+//@ define INTZ = (forall k in MB + d.ndig..MB + DP - 1: buf[k] == 48)
+//@ define HEAD = (SIGN && KEEP && INTD && INTZ && (DP <= 0 ==> buf[MB] == 48))
+//@ loop 1: invariant d.ndig > 0 && DP >= d.ndig && 0 <= i && i <= DP - d.ndig && len(buf) == MB + DP - i
+//@ loop 1: invariant SIGN
+//@ loop 1: invariant KEEP
+//@ loop 1: invariant INTD
+//@ loop 1: invariant forall k in MB + d.ndig..MB + DP - i - 1: buf[k] == 48
+//@ loop 1: decreases i
+//@ loop 2: invariant d.ndig > 0 && DP >= d.ndig && 0 <= i && i <= DP - d.ndig && len(buf) == MB + DP - i
+//@ loop 2: invariant SIGN
+//@ loop 2: invariant KEEP
+//@ loop 2: invariant INTD
+//@ loop 2: invariant forall k in MB + d.ndig..MB + DP - i - 1: buf[k] == 48
+//@ loop 2: decreases i
+//@ cut before "if prec > 0 {": havoc buf: len(buf) == MB + IL && dp == DP && HEAD
+//@ loop 3: invariant P0 > 0 && DP <= dp && (DP < 0 ==> dp <= 0) && (DP >= 0 ==> dp == DP) && prec == P0 - (dp - DP) && len(buf) == MB + IL + 1 + (dp - DP)
+//@ loop 3: invariant SIGN
+//@ loop 3: invariant KEEP
+//@ loop 3: invariant INTD
+//@ loop 3: invariant INTZ
+//@ loop 3: invariant DP <= 0 ==> buf[MB] == 48
+//@ loop 3: invariant buf[MB + IL] == 46
+//@ loop 3: invariant forall k in MB + IL + 1..MB + IL + (dp - DP): buf[k] == 48
+//@ loop 3: decreases 0 - dp
+//@ loop 4: invariant P0 > 0 && prec == P0 - Z1 && i >= FD && i >= 0 && (i > FD ==> i <= prec) && len(buf) == F0 + i
+//@ loop 4: invariant SIGN
+//@ loop 4: invariant KEEP
+//@ loop 4: invariant INTD
+//@ loop 4: invariant INTZ
+//@ loop 4: invariant DP <= 0 ==> buf[MB] == 48
+//@ loop 4: invariant buf[MB + IL] == 46
+//@ loop 4: invariant forall k in MB + IL + 1..MB + IL + Z1: buf[k] == 48
+//@ loop 4: invariant forall k in F0..F0 + FD - 1: buf[k] == DG[k - F0 + DPP]
+//@ loop 4: invariant forall k in F0 + FD..F0 + i - 1: buf[k] == 48
+//@ loop 4: decreases prec - i
+//@ assert before "buf = d.pad(buf, start, width, printSign, padSign, padRight, padZero)": len(buf) == LEN
+//@ assert before "buf = d.pad(buf, start, width, printSign, padSign, padRight, padZero)": SIGN
+//@ assert before "buf = d.pad(buf, start, width, printSign, padSign, padRight, padZero)": KEEP
+//@ assert before "buf = d.pad(buf, start, width, printSign, padSign, padRight, padZero)": INTD
+//@ assert before "buf = d.pad(buf, start, width, printSign, padSign, padRight, padZero)": INTZ
+//@ assert before "buf = d.pad(buf, start, width, printSign, padSign, padRight, padZero)": DP <= 0 ==> buf[MB] == 48
+//@ assert before "buf = d.pad(buf, start, width, printSign, padSign, padRight, padZero)": P0 > 0 || forceDP ==> buf[MB + IL] == 46
+//@ assert before "buf = d.pad(buf, start, width, printSign, padSign, padRight, padZero)": P0 > 0 ==> (forall k in MB + IL + 1..MB + IL + Z1: buf[k] == 48)
+//@ assert before "buf = d.pad(buf, start, width, printSign, padSign, padRight, padZero)": P0 > 0 ==> (forall k in F0..F0 + FD - 1: buf[k] == DG[k - F0 + DPP])
+//@ assert before "buf = d.pad(buf, start, width, printSign, padSign, padRight, padZero)": P0 > 0 ==> (forall k in F0 + FD..LEN - 1: buf[k] == 48)
+//@ ensures len(out) == ite(width > LEN - N0, N0 + width, LEN)
+//@ ensures forall k in 0..N0 - 1: out[k] == old(buf[k])
+//@ props C06 C07 C20
+
 //@ func digits.pad
 //@ returns (out)
 //@ requires width <= 100000000 && width >= 0 - 100000000 && 0 <= start && start < len(buf)
